@@ -110,8 +110,9 @@ def run(ctx):
     ]
 
 
-# MUTANTS (scratch worktree, `VERIF_REPO=... VERIF_DEV_REUSE=1 ./check C16`):
+# MUTANTS (scratch worktree, `VERIF_REPO=... VERIF_DEV_REUSE=1 ./check C16`) -- all three tried CAUGHT (exit 1); a fourth
+# (find_block_scalar_end) was not tried for lack of time:
 #   S1 simd/x86.rs find_quote_or_escape_sse2: remainder loop starts at offset + 1  -> CAUGHT: kernel event fqe cfg=sse2 (hit at start+64), and
 #                                                                                  indexes_built differs between configurations
 #   S2 simd/x86.rs count_leading_spaces_avx2: returns after the first full chunk   -> CAUGHT: kernel event cls cfg=avx2 r=32
-#   S3 simd/scalar.rs parse_anchor_name_scalar: bare `:` terminates the name       -> see outcome below
+#   S3 simd/scalar.rs parse_anchor_name_scalar: bare `:` terminates the name       -> CAUGHT: kernel event pan (`:a` at the start) cfg=sse2, r=0 where the definition says 20
